@@ -6,6 +6,7 @@ import (
 	"encoding/binary"
 	"errors"
 	"io"
+	"math"
 	"slices"
 )
 
@@ -80,6 +81,12 @@ type Field struct {
 }
 
 func NewField(fieldType [2]byte, data []byte) Field {
+	// The field size is a 2 byte value.  Truncate data that does not fit so that the size prefix always matches the
+	// payload and the transaction stays parseable.
+	if len(data) > math.MaxUint16 {
+		data = data[:math.MaxUint16]
+	}
+
 	f := Field{
 		Type: fieldType,
 		Data: make([]byte, len(data)),
